@@ -250,17 +250,20 @@ Definition director (t : target) (without : bytes) (u : urlst) : urlst :=
            else t_query t ++ [AMP] ++ u_query u in
   {| u_path := sjs (t_path t) p; u_rawpath := rp'; u_query := q |}.
 
-(* ---- one attempt of the retry loop (the request is shared and mutated across attempts) ---- *)
+(* ---- one attempt of the retry loop ----
+   [fixed]: what the {>Header} placeholders read (see live_of). When retries are possible
+   (try_duration != 0, [retriable]) every attempt starts from a fresh copy of the URL and the
+   headers createUpstreamRequest produced; otherwise the (single) attempt works on the request itself. *)
 Record rstate := { s_url : urlst; s_hdr : hdr }.
 Record sent := { o_host : bytes; o_urlhost : bytes; o_url : urlst; o_hdr : hdr }.
 Definition last_or {A} (l : list A) (d : A) : A := match rev l with x :: _ => x | [] => d end.
-Definition attempt (c : pcfg) (e : reqenv) (h0 : hdr) (copied : bool) (st : rstate) (t : target) : rstate * sent :=
+Definition attempt (c : pcfg) (e : reqenv) (fixed : option hdr) (st : rstate) (t : target) : rstate * sent :=
   let h1 := match t_auth t with
             | Some a => if is_nil (hget (s_hdr st) K_AUTHZ) then hset (s_hdr st) K_AUTHZ a else s_hdr st
             | None => s_hdr st
             end in
   (* with aliasing the basic-auth Set also lands in r.Header; placeholders read the live map *)
-  let h2 := mutate_headers e (if copied then Some h0 else None) (c_up c) (c_upre c) h1 in
+  let h2 := mutate_headers e fixed (c_up c) (c_upre c) h1 in
   let host := match hlookup h2 K_HOST with
               | Some vs => if is_nil vs then t_host t else last_or vs []
               | None => t_host t
@@ -268,18 +271,25 @@ Definition attempt (c : pcfg) (e : reqenv) (h0 : hdr) (copied : bool) (st : rsta
   let u := director t (c_without c) (s_url st) in
   ({| s_url := u; s_hdr := h2 |}, {| o_host := host; o_urlhost := t_host t; o_url := u; o_hdr := h2 |}).
 
-Fixpoint attempts (c : pcfg) (e : reqenv) (h0 : hdr) (copied : bool) (st : rstate) (ts : list target) : list sent * rstate :=
+Fixpoint attempts (c : pcfg) (e : reqenv) (fixed : option hdr) (retriable : bool) (st0 st : rstate) (ts : list target) : list sent * rstate :=
   match ts with
   | [] => ([], st)
-  | t :: r => let '(st', o) := attempt c e h0 copied st t in
-              let '(os, stf) := attempts c e h0 copied st' r in (o :: os, stf)
+  | t :: r => let '(st', o) := attempt c e fixed (if retriable then st0 else st) t in
+              let '(os, stf) := attempts c e fixed retriable st0 st' r in (o :: os, stf)
   end.
 
 Record request := { q_method : bytes; q_host : bytes; q_remote : bytes; q_url : urlst; q_hdr : hdr }.
 Definition env_of (q : request) : reqenv := {| e_method := q_method q; e_host := q_host q; e_remote := q_remote q |}.
-Definition run_request (c : pcfg) (q : request) (ts : list target) : list sent * rstate :=
-  attempts c (env_of q) (q_hdr q) (req_copied (q_hdr q))
-           {| s_url := q_url q; s_hdr := create_upstream_headers (q_remote q) (q_hdr q) |} ts.
+Definition init_state (q : request) : rstate :=
+  {| s_url := q_url q; s_hdr := create_upstream_headers (q_remote q) (q_hdr q) |}.
+(* r.Header as the replacer sees it while the rules run: the client's map when outreq.Header was
+   copied by createUpstreamRequest; else r.Header IS the map createUpstreamRequest wrote to - frozen
+   when the attempts work on copies of it (retriable), the very map being mutated otherwise *)
+Definition fixed_of (retriable : bool) (q : request) : option hdr :=
+  if req_copied (q_hdr q) then Some (q_hdr q)
+  else if retriable then Some (s_hdr (init_state q)) else None.
+Definition run_request (c : pcfg) (retriable : bool) (q : request) (ts : list target) : list sent * rstate :=
+  attempts c (env_of q) (fixed_of retriable q) retriable (init_state q) (init_state q) ts.
 
 (* ---- response half of ReverseProxy.ServeHTTP ---- *)
 (* every Connection value of the backend response is consulted (range over res.Header["Connection"]) *)
@@ -520,8 +530,8 @@ Definition dflt_sent : sent := {| o_host := []; o_urlhost := []; o_url := dflt_u
 Definition sent_eqb (a b : sent) : bool :=
   beq (o_host a) (o_host b) && beq (o_urlhost a) (o_urlhost b) && urlst_eqb (o_url a) (o_url b) &&
   hdr_eqb (o_hdr a) (o_hdr b).
-Definition agree_sent_pointwise (cfg : pcfg) (q : request) (chosen : list target) (obs : list sent) : list (nat * bytes) :=
-  let m0s := fst (run_request cfg q chosen) in
+Definition agree_sent_pointwise (cfg : pcfg) (retriable : bool) (q : request) (chosen : list target) (obs : list sent) : list (nat * bytes) :=
+  let m0s := fst (run_request cfg retriable q chosen) in
   flat_map (fun i =>
     let o := nth i obs dflt_sent in
     let m0 := nth i m0s dflt_sent in
@@ -533,7 +543,7 @@ Definition agree_sent_pointwise (cfg : pcfg) (q : request) (chosen : list target
                  negb ((oval_eqb (hlookup (o_hdr m0) k) (hlookup (o_hdr o) k) &&
                         (negb (beq k K_HOST) || beq (o_host m0) (o_host o))) ||
                        existsb (fun rules =>
-                                  let m := nth i (fst (run_request (with_up cfg rules) q chosen)) dflt_sent in
+                                  let m := nth i (fst (run_request (with_up cfg rules) retriable q chosen)) dflt_sent in
                                   oval_eqb (hlookup (o_hdr m) k) (hlookup (o_hdr o) k) &&
                                   (negb (beq k K_HOST) || beq (o_host m) (o_host o)))
                                (tl (reorder_for k (c_up cfg))))) keys))
@@ -542,17 +552,20 @@ Definition agree_sent_pointwise (cfg : pcfg) (q : request) (chosen : list target
 (* when outreq.Header aliases r.Header, {>H} placeholders see what earlier rules wrote, so even rules
    for different headers do not commute: fall back to "some iteration order of the whole table"
    (tables of up to 5 fields; larger aliased tables are judged by the spec only) *)
-Definition agree_sent_fail (cfg : pcfg) (q : request) (chosen : list target) (obs : list sent) : list (nat * bytes) :=
-  match agree_sent_pointwise cfg q chosen obs with
+Definition agree_sent_fail (cfg : pcfg) (retriable : bool) (q : request) (chosen : list target) (obs : list sent) : list (nat * bytes) :=
+  match agree_sent_pointwise cfg retriable q chosen obs with
   | [] => []
   | f => if req_copied (q_hdr q) then f
          else if Nat.ltb 5 (length (c_up cfg)) then []
-         else if existsb (fun rules => list_beq sent_eqb (fst (run_request (with_up cfg rules) q chosen)) obs) (perms (c_up cfg))
+         else if existsb (fun rules => list_beq sent_eqb (fst (run_request (with_up cfg rules) retriable q chosen)) obs) (perms (c_up cfg))
               then [] else f
   end.
 
-Definition live_at_response (cfg : pcfg) (q : request) (chosen : list target) : hdr :=
-  if req_copied (q_hdr q) then q_hdr q else s_hdr (snd (run_request cfg q chosen)).
+Definition live_at_response (cfg : pcfg) (retriable : bool) (q : request) (chosen : list target) : hdr :=
+  match fixed_of retriable q with
+  | Some h => h
+  | None => s_hdr (snd (run_request cfg retriable q chosen))
+  end.
 
 Definition agree_client_fail (cfg : pcfg) (q : request) (live : hdr) (pre : hdr) (b : bresp) (oc : client_obs) : list bytes :=
   let m0 := client_view cfg (env_of q) live pre b in
@@ -604,8 +617,8 @@ Definition judge (c : case) : N :=
       let nobs := length obs_sent in
       let answered := Nat.ltb fails nobs in
       let agree :=
-        is_nil (agree_sent_fail cfg q chosen (map so_sent obs_sent)) &&
-        (if answered then is_nil (agree_client_fail cfg q (live_at_response cfg q chosen) pre b oc) else (ret =? 502)) in
+        is_nil (agree_sent_fail cfg retry q chosen (map so_sent obs_sent)) &&
+        (if answered then is_nil (agree_client_fail cfg q (live_at_response cfg retry q chosen) pre b oc) else (ret =? 502)) in
       let spec :=
         Nat.eqb nobs (if retry then S fails else 1%nat) &&
         forallb (fun so => is_nil (spec_attempt_fail ds ts q body chunked so)) obs_sent &&
